@@ -142,7 +142,7 @@ def event_kind(desc_case_line):
     return desc_case_line
 
 
-ABS_PROPS = {"C01", "C02", "C03", "C04", "C06", "C09"}
+ABS_PROPS = {"C01", "C02", "C03", "C04", "C05", "C06", "C09"}
 ABS_CODES = {1: "no projection listed for the event's node", 2: "observed projections differ from the abstract state after the event",
              10: "election started by node 0", 11: "election started by a node that is leader",
              20: "vote granted to candidate 0", 21: "vote granted for an election nobody started", 22: "vote granted although the voter "
@@ -355,7 +355,8 @@ register("C14", run=run_c14, tie="coq/SegLog/Cases.v (LCrash) vs log/segment.go 
 reg_node("C05", "Theorems (every voter state, every request, every order of events, restarts at any point): a granted reply means term and vote "
          "are the persisted ones; no step of any kind lowers the term or changes a cast vote within a term; along any history at most one "
          "candidate per term and terms never decrease; reported terms lie between the terms before and after the step; the pre-repair handler is refuted.",
-         ["(term, votedFor) in the model IS the term file: crash atomicity of its rename is covered by C10's crash images"])
+         ["(term, votedFor) in the model IS the term file: crash atomicity of its rename is covered by C10's crash images"],
+         extra_props=["AbsTie.v"])
 
 
 # ------------------------------------------------------------------ C20
@@ -490,7 +491,8 @@ reg_node("C12", "Theorems: the snapshot task captures state-machine position and
 reg_node("C17", "Theorems: leader stickiness (full: a non-transfer vote request from another node leaves a follower that knows a leader exactly as "
          "it was); mechanisms of progress: time-out starts an election, an up-to-date candidate gets every allowed vote, a quorum of grants wins, "
          "rejections strictly lower nextIndex down to matchIndex+1, success raises the match index, a single voter commits alone, quorum loss steps "
-         "down. PARTIAL: real time / bounded number of election time-outs is outside the model.", [])
+         "down; on the abstract protocol (Props/C17_abs.v): from EVERY reachable state any majority of voters can elect one of its members "
+         "and commit a new entry on all of them (explicit witness run). PARTIAL: real time / bounded number of election time-outs is outside the model.", [])
 
 
 reg_node("C11", "Theorems: an election is started only by a voter of the node's own latest configuration (time-out aborts, timeout-now is refused "
